@@ -243,6 +243,17 @@ func (x *Exec) specIndex(env *Env, base Val, idx string, e ast.Expr) (Val, error
 	}
 	switch u := base.Typ.Underlying().(type) {
 	case *types.Slice:
+		if len(idx) < 120 && !isLiteral(idx) {
+			closed := true
+			for _, sym := range env.bound {
+				if strings.Contains(idx, sym) {
+					closed = false
+				}
+			}
+			if closed {
+				x.idxTerms = append(x.idxTerms, idxTerm{idx, len(x.decls)})
+			}
+		}
 		abs := idx
 		if base.L[1] != "0" {
 			abs = "(+ " + base.L[1] + " " + idx + ")"
@@ -615,8 +626,18 @@ func (x *Exec) specBinary(env *Env, t *ast.BinaryExpr) (Val, error) {
 	}
 	if t.Op == token.EQL || t.Op == token.NEQ {
 		var eq string
+		_, aSl := typeUnder(a.Typ).(*types.Slice)
+		_, bSl := typeUnder(b.Typ).(*types.Slice)
 		if isBoolType(a.Typ) && isBoolType(b.Typ) {
 			eq = "(= " + a.t() + " " + b.t() + ")"
+		} else if aSl && bSl && len(a.L) == len(b.L) && len(a.L) >= 3 {
+			// in specifications two slices are equal when they are the same window of the same
+			// array (Go itself only allows comparison with nil)
+			var eqs []string
+			for i := range a.L {
+				eqs = append(eqs, "(= "+a.L[i]+" "+b.L[i]+")")
+			}
+			eq = smtAnd(eqs...)
 		} else {
 			eq = x.valEq(a, b)
 		}
@@ -739,7 +760,15 @@ func (x *Exec) specCall(env *Env, c *ast.CallExpr) (Val, error) {
 			n.inOld = true
 			return x.spec(&n, c.Args[0])
 		}
-		return x.spec(env.inState(env.old, env.oldVars), c.Args[0])
+		ov, oerr := x.spec(env.inState(env.old, env.oldVars), c.Args[0])
+		if oerr == nil && ov.Home == nil && ov.Typ != nil {
+			switch ov.Typ.Underlying().(type) {
+			case *types.Slice, *types.Pointer:
+				// element reads through this value must also see the entry state
+				ov.Home = env.old
+			}
+		}
+		return ov, oerr
 	case "head":
 		// head(k, e): value of e at the head of enclosing loop k in the current iteration
 		if len(c.Args) != 2 || env.fr == nil {
@@ -1021,6 +1050,20 @@ func (x *Exec) specCall(env *Env, c *ast.CallExpr) (Val, error) {
 		n.fr = nil
 		n.vars = map[string]Val{}
 		n.sides = nil
+		// hygiene: the caller's quantified variables are not visible either (a parameter named
+		// like one of them must denote the argument)
+		n.bound = map[string]string{}
+		for k, v := range env.bound {
+			n.bound[k] = v // (kept: a non-empty map also marks "inside a quantifier" for reads)
+		}
+		for _, p := range pr.Params {
+			if sym, ok := n.bound[p]; ok {
+				// the quantified symbol stays recorded under an unreachable name so that
+				// closedness checks (specFacts, pure reads) still see it
+				delete(n.bound, p)
+				n.bound["\x00"+p] = sym
+			}
+		}
 		return x.spec(&n, pr.Body)
 	}
 	if d, ok := x.V.contracts.Defs[fname]; ok {
@@ -1118,4 +1161,11 @@ func (x *Exec) useDef(name string) {
 		}
 	}
 	x.defDecls = append(x.defDecls, fmt.Sprintf("(%s %s (%s) %s %s)", kw, quoteSym("def_"+name), strings.Join(ps, " "), srt, body))
+}
+
+func typeUnder(t types.Type) types.Type {
+	if t == nil {
+		return nil
+	}
+	return t.Underlying()
 }
